@@ -1402,9 +1402,14 @@ class Store:
 
         for daughter, daughter_state in \
                 zip(daughters, daughter_states):
-            # use initial state as default, merge in divided values
+            # the divided values, overridden by the daughter's explicit
+            # initial state. The divided state is merged into a copy of
+            # its dictionary structure: dividers such as 'set' hand both
+            # daughters the same objects, and merging in place would
+            # write one daughter's initial state into her sister's.
             merged_initial_state = deep_merge(
-                daughter_state, daughter.get('initial_state', {}))
+                deep_copy_internal(daughter_state),
+                daughter.get('initial_state', {}))
 
             daughter_key = daughter['key']
             daughter_path = (daughter_key,)
